@@ -156,28 +156,30 @@ func (p *Primary) OnWALEntryWritten(entry *wal.Entry) {
 
 // OnWALBatchWritten implements WALEntryObserver.OnWALBatchWritten
 func (p *Primary) OnWALBatchWritten(startSeq uint64, entries []*wal.Entry) {
-	// Reset batcher to ensure a clean state when processing a batch
-	p.batcher.Reset()
-
-	// Process each entry in the batch
+	// The entries of a batch (a committed transaction) are logged under one
+	// sequence number, startSeq. The entries handed to observers are the
+	// caller's and do not carry it, and a replica can only take the batch as a
+	// unit: its cursor advances by whole sequence numbers. So the batch goes
+	// out as a single message whose entries all bear startSeq.
+	protoEntries := make([]*proto.WALEntry, 0, len(entries))
 	for _, entry := range entries {
-		ready, err := p.batcher.AddEntry(entry)
+		numbered := *entry
+		numbered.SequenceNumber = startSeq
+		protoEntry, err := WALEntryToProto(&numbered, proto.FragmentType_FULL)
 		if err != nil {
+			// Nothing of the batch is pushed; replicas fetch it when they catch up
 			log.Error("Error adding batch entry to replication: %v", err)
-			continue
+			return
 		}
-
-		// If we filled up the batch during processing, send it
-		if ready {
-			response := p.batcher.GetBatch()
-			p.broadcastToReplicas(response)
-		}
+		protoEntries = append(protoEntries, protoEntry)
 	}
 
-	// If we have entries in the batch after processing all entries, send them
-	if p.batcher.GetBatchCount() > 0 {
-		response := p.batcher.GetBatch()
-		p.broadcastToReplicas(response)
+	if len(protoEntries) > 0 {
+		p.broadcastToReplicas(&proto.WALStreamResponse{
+			Entries:    protoEntries,
+			Compressed: false,
+			Codec:      proto.CompressionCodec_NONE,
+		})
 	}
 }
 
@@ -676,7 +678,13 @@ func (p *Primary) getWALEntriesFromSequence(fromSequence uint64) ([]*wal.Entry, 
 	// Limit the number of entries to return to avoid overwhelming the network
 	maxEntriesToReturn := 100
 	if len(allEntries) > maxEntriesToReturn {
-		allEntries = allEntries[:maxEntriesToReturn]
+		// Never cut inside a batch: its entries share one sequence number and
+		// the replica would ask for the next number after the first part.
+		end := maxEntriesToReturn
+		for end < len(allEntries) && allEntries[end].SequenceNumber == allEntries[end-1].SequenceNumber {
+			end++
+		}
+		allEntries = allEntries[:end]
 		log.Info("Limited entries to %d for network efficiency", maxEntriesToReturn)
 	}
 
